@@ -14,42 +14,45 @@ theorem filter_ignore_nil (K : List Nat) : K.filter (fun n => !([] : List Nat).c
   intro n _
   simp
 
-theorem opRoot_general (ketNode opNode : Node) (hK : ketNode.nbrs.Nodup) (hO : opNode.nbrs.Nodup)
-    (hperm : opNode.nbrs.Perm ketNode.nbrs) :
-    opContractNodeWithEnvironment ketNode (ketT ketNode) opNode (opT opNode) (braT ketNode) (cacheAll true) =
-      some ⟨[], (ketNode.nbrs.map (fun n => (Leg.ketNb n, Leg.blkKet n)) ++
-                  (ketNode.nbrs.map (fun n => (Leg.blkOp n, Leg.opNb n)) ++ [(Leg.ketPhys, Leg.opIn)])) ++
-                (ketNode.nbrs.map (fun n => (Leg.braNb n, Leg.blkBra n)) ++ [(Leg.braPhys, Leg.opOut)])⟩ := by
+theorem opRoot_labels (mkK mkO mkB a o b : Nat → Leg) (y zo zi z : Leg) (bb : Nat → List (Leg × Leg))
+    (cache : Cache) (ketNode opNode : Node) (hK : ketNode.nbrs.Nodup) (hO : opNode.nbrs.Nodup)
+    (hperm : opNode.nbrs.Perm ketNode.nbrs)
+    (hcache : ∀ n ∈ ketNode.nbrs, cache n = some ⟨[a n, o n, b n], bb n⟩) :
+    opContractNodeWithEnvironment ketNode (T.fresh (ketNode.nbrs.map mkK ++ [y])) opNode
+        (T.fresh (opNode.nbrs.map mkO ++ [zo, zi])) (T.fresh (ketNode.nbrs.map mkB ++ [z])) cache =
+      some ⟨[], (ketNode.nbrs.flatMap (fun n => bb n ++ [(mkK n, a n)]) ++
+                  (ketNode.nbrs.map (fun n => (o n, mkO n)) ++ [(y, zi)])) ++
+                (ketNode.nbrs.map (fun n => (mkB n, b n)) ++ [(z, zo)])⟩ := by
   have hmemO : ∀ n ∈ ketNode.nbrs, n ∈ opNode.nbrs := fun n hn => hperm.mem_iff.2 hn
   have hmemK : ∀ n ∈ opNode.nbrs, n ∈ ketNode.nbrs := fun n hn => hperm.mem_iff.1 hn
   have hlen : opNode.nbrs.length = ketNode.nbrs.length := hperm.length_eq
-  have hall := allLoop_general 0 Leg.ketNb (block true) Leg.blkKet (cacheAll true) ketNode ketNode.nbrs
-    [Leg.ketPhys] [] (fun n _ => ⟨rfl, by simp [block, T.fresh], by simp [block, T.fresh]⟩)
-  have hall' : contractAllNeighbourBlocksToKet (ketT ketNode) ketNode (cacheAll true) =
-      some ⟨[Leg.ketPhys] ++ ketNode.nbrs.flatMap (fun n => [Leg.blkOp n, Leg.blkBra n]),
-            ketNode.nbrs.map (fun n => (Leg.ketNb n, Leg.blkKet n))⟩ := by
-    simpa [contractAllNeighbourBlocksToKet, ketT, block, blockRest, T.fresh] using hall
+  have hall := allLoop_general 0 mkK (fun n => ⟨[a n, o n, b n], bb n⟩) a cache ketNode ketNode.nbrs
+    [y] [] (fun n hn => ⟨hcache n hn, by simp⟩)
+  have hall' : contractAllNeighbourBlocksToKet (T.fresh (ketNode.nbrs.map mkK ++ [y])) ketNode cache =
+      some ⟨[y] ++ ketNode.nbrs.flatMap (fun n => [o n, b n]),
+            ketNode.nbrs.flatMap (fun n => bb n ++ [(mkK n, a n)])⟩ := by
+    simpa [contractAllNeighbourBlocksToKet, T.fresh] using hall
   have heq := equivLoop_eq ketNode opNode [] id ketNode.nbrs (fun n hn _ => ⟨hn, hmemO n hn⟩)
   rw [filter_ignore_nil, map_idxOf_self _ hK] at heq
   simp only [opContractNodeWithEnvironment, hall', getEquivalentLegs, heq, nodeOperatorInputLeg, Node.nn_eq, id]
   generalize hKd : ketNode.nbrs = K at *
   generalize hOd : opNode.nbrs = On at *
   -- first tensordot: blocks+ket with the operator
-  have pa : pick ([Leg.ketPhys] ++ K.flatMap (fun n => [Leg.blkOp n, Leg.blkBra n]))
-      ((List.range K.length).map (fun k => 2 * k + 1) ++ [0]) = some (K.map Leg.blkOp ++ [Leg.ketPhys]) := by
+  have pa : pick ([y] ++ K.flatMap (fun n => [o n, b n]))
+      ((List.range K.length).map (fun k => 2 * k + 1) ++ [0]) = some (K.map o ++ [y]) := by
     apply pick_append
-    · have := pick_evens [Leg.ketPhys] K Leg.blkOp Leg.blkBra []
+    · have := pick_evens [y] K o b []
       simpa using this
     · exact pick_single _ _ _ (by simp)
-  have pb : pick (opT opNode).legs (K.map (fun n => On.idxOf n) ++ [On.length + 1])
-      = some (K.map Leg.opNb ++ [Leg.opIn]) := by
+  have pb : pick (T.fresh (On.map mkO ++ [zo, zi])).legs (K.map (fun n => On.idxOf n) ++ [On.length + 1])
+      = some (K.map mkO ++ [zi]) := by
     apply pick_append
     · apply pick_map
       intro n hn
-      simp only [opT, T.fresh, hOd]
-      exact getElem?_map_idxOf Leg.opNb [Leg.opOut, Leg.opIn] (hmemO n hn)
+      simp only [T.fresh]
+      exact getElem?_map_idxOf mkO [zo, zi] (hmemO n hn)
     · apply pick_single
-      simp [opT, T.fresh, hOd]
+      simp [T.fresh]
   have nda : ((List.range K.length).map (fun k => 2 * k + 1) ++ [0]).Nodup := by
     rw [List.nodup_append]
     refine ⟨nodup_map_of_inj_on _ _ List.nodup_range (fun x _ y _ e => by omega), by simp, ?_⟩
@@ -69,7 +72,7 @@ theorem opRoot_general (ketNode opNode : Node) (hK : ketNode.nbrs.Nodup) (hO : o
     omega
   rw [tensordot_eq _ _ _ _ _ _ (by simp) nda ndb pa pb]
   have ra : remaining ((List.range K.length).map (fun k => 2 * k + 1) ++ [0]) 0
-      ([Leg.ketPhys] ++ K.flatMap (fun n => [Leg.blkOp n, Leg.blkBra n])) = K.map Leg.blkBra := by
+      ([y] ++ K.flatMap (fun n => [o n, b n])) = K.map b := by
     rw [remaining_append, remaining_one_drop _ _ _ (by simp), remaining_pairs]
     · simp
     · intro i hi
@@ -80,8 +83,8 @@ theorem opRoot_general (ketNode opNode : Node) (hK : ketNode.nbrs.Nodup) (hO : o
       simp only [List.mem_append, List.mem_map, List.mem_range, List.mem_singleton, List.length_cons,
         List.length_nil] at hc
       rcases hc with ⟨k, _, hk⟩ | hk <;> omega
-  have rb : remaining (K.map (fun n => On.idxOf n) ++ [On.length + 1]) 0 (opT opNode).legs = [Leg.opOut] := by
-    simp only [opT, T.fresh, hOd]
+  have rb : remaining (K.map (fun n => On.idxOf n) ++ [On.length + 1]) 0 (T.fresh (On.map mkO ++ [zo, zi])).legs = [zo] := by
+    simp only [T.fresh]
     rw [remaining_append, remaining_all, remaining_keep_drop]
     · simp
     · simp only [Nat.zero_add, List.length_map, List.mem_append, List.mem_map, List.mem_singleton, not_or,
@@ -96,31 +99,43 @@ theorem opRoot_general (ketNode opNode : Node) (hK : ketNode.nbrs.Nodup) (hO : o
       exact Or.inl ⟨On[i], hmemK _ (List.getElem_mem hi), hO.idxOf_getElem i hi⟩
   rw [ra, rb]
   -- second tensordot: the conjugated ket tensor
-  simp only [List.length_range, braT, T.fresh, hKd]
+  simp only [List.length_range, T.fresh]
   have hr : List.range K.length ++ [K.length] = List.range (K.length + 1) := by
     rw [List.range_succ]
   rw [hr]
-  have p1 : pick (K.map Leg.braNb ++ [Leg.braPhys]) (List.range (K.length + 1))
-      = some (K.map Leg.braNb ++ [Leg.braPhys]) := by
-    have := pick_range (K.map Leg.braNb ++ [Leg.braPhys])
+  have p1 : pick (K.map mkB ++ [z]) (List.range (K.length + 1))
+      = some (K.map mkB ++ [z]) := by
+    have := pick_range (K.map mkB ++ [z])
     simpa using this
-  have p2 : pick (K.map Leg.blkBra ++ [Leg.opOut]) (List.range (K.length + 1))
-      = some (K.map Leg.blkBra ++ [Leg.opOut]) := by
-    have := pick_range (K.map Leg.blkBra ++ [Leg.opOut])
+  have p2 : pick (K.map b ++ [zo]) (List.range (K.length + 1))
+      = some (K.map b ++ [zo]) := by
+    have := pick_range (K.map b ++ [zo])
     simpa using this
   rw [tensordot_eq _ _ _ _ _ _ rfl List.nodup_range List.nodup_range p1 p2]
-  have r1 : remaining (List.range (K.length + 1)) 0 (K.map Leg.braNb ++ [Leg.braPhys]) = [] := by
+  have r1 : remaining (List.range (K.length + 1)) 0 (K.map mkB ++ [z]) = [] := by
     apply remaining_all
     intro i hi
     simp at hi ⊢
     omega
-  have r2 : remaining (List.range (K.length + 1)) 0 (K.map Leg.blkBra ++ [Leg.opOut]) = [] := by
+  have r2 : remaining (List.range (K.length + 1)) 0 (K.map b ++ [zo]) = [] := by
     apply remaining_all
     intro i hi
     simp at hi ⊢
     omega
   simp only [r1, r2, List.append_nil]
   rw [List.zip_append (by simp), zip_map_same, List.zip_append (by simp), zip_map_same]
-  simp [opT, T.fresh]
+  simp
+
+
+theorem opRoot_general (ketNode opNode : Node) (hK : ketNode.nbrs.Nodup) (hO : opNode.nbrs.Nodup)
+    (hperm : opNode.nbrs.Perm ketNode.nbrs) :
+    opContractNodeWithEnvironment ketNode (ketT ketNode) opNode (opT opNode) (braT ketNode) (cacheAll true) =
+      some ⟨[], (ketNode.nbrs.map (fun n => (Leg.ketNb n, Leg.blkKet n)) ++
+                  (ketNode.nbrs.map (fun n => (Leg.blkOp n, Leg.opNb n)) ++ [(Leg.ketPhys, Leg.opIn)])) ++
+                (ketNode.nbrs.map (fun n => (Leg.braNb n, Leg.blkBra n)) ++ [(Leg.braPhys, Leg.opOut)])⟩ := by
+  have := opRoot_labels Leg.ketNb Leg.opNb Leg.braNb Leg.blkKet Leg.blkOp Leg.blkBra Leg.ketPhys Leg.opOut Leg.opIn
+    Leg.braPhys (fun _ => []) (cacheAll true) ketNode opNode hK hO hperm
+    (fun n _ => by simp [cacheAll, block, blockRest, T.fresh])
+  simpa [ketT, opT, braT, flatMap_single] using this
 
 end Ptn.C04
